@@ -127,15 +127,16 @@ def ubsan_fatal_kind(err):
             k = m.group(1)
             k = re.sub(r"0x[0-9a-f]+", "P", k)
             k = re.sub(r"-?\d+", "N", k)
+            k = re.sub(r"'(\w+)[^']*'", r"\1", k)
             k = re.sub(r"'[^']*'", "T", k)
-            return re.sub(r"[^A-Za-z]+", "-", k).strip("-")[:40]
+            return re.sub(r"[^A-Za-z]+", "-", k).strip("-")[:60]
     return None
 
 
 # UBSan's vptr check probes the object's memory through a pipe(); when the tool has run out of file descriptors
 # (recursive #include ends that way) the probe fails and UBSan reports "invalid vptr ... <memory cannot be printed>"
 # for a perfectly valid std::cerr.  That is the sanitizer's failure, not the tool's.
-VPTR_ARTEFACT = re.compile(r"runtime error: (?:cast to virtual base|member call on|member access within|downcast of) "
+VPTR_ARTEFACT = re.compile(r"runtime error: (?:cast to virtual base of|member call on|member access within|downcast of) "
                            r"address 0x[0-9a-f]+ which does not point to an object of type [^\n]*\n"
                            r"0x[0-9a-f]+: note: object has invalid vptr\n<memory cannot be printed>")
 
@@ -421,7 +422,7 @@ def minimise(b, inp, key, d, budget=160):
     """ddmin over lines, tokens, then bytes of the mutated file (or of the -D list) keeping the same key."""
     tests = [0]
     if key.startswith("hang:"):
-        budget = 10          # every failing test costs two watchdog periods
+        return dict(inp)     # every failing test would cost two watchdog periods
 
     def same(cand):
         tests[0] += 1
